@@ -28,22 +28,20 @@ package props
 // is fatal).
 
 import (
-	"bufio"
 	"fmt"
 	"os"
 	"path/filepath"
 	"strconv"
 	"strings"
-	"sync"
 	"time"
 
 	"github.com/luthersystems/elps/lisp"
 
+	"verifharness/firstuse"
 	"verifharness/fw"
-	"verifharness/rt"
 )
 
-const c09FirstUseGuard = "(lisp:handler-bind ((condition (lisp:lambda (c &rest a) 'c09-refused))) %s)"
+const c09FirstUseGuard = firstuse.Guard
 
 // c09FirstUseForms draws the calls.  Deterministic in the seed.
 func c09FirstUseForms(d *fw.D) (forms []string, nfn int) {
@@ -117,12 +115,22 @@ func c09FirstUsePhase(d *fw.D) {
 		d.Inconclusive("first-use sweep: " + err.Error())
 		return
 	}
-	rounds := pick(d.Tier, 2, 6)
+	rounds := pick(d.Tier, 3, 8)
 	for round := 0; round < rounds; round++ {
-		g := []int{8, 16, 4, 32, 8, 16}[round%6]
+		g := []int{8, 16, 32, 4, 16, 8, 4, 32}[round%8]
 		logp := filepath.Join(dir, fmt.Sprintf("race-firstuse-%d", round))
-		out, err := d.RunAux("race", []string{"GORACE=halt_on_error=0 log_path=" + logp, "GOMAXPROCS=16"}, 20*time.Minute,
+		// even rounds: the lean binary (nothing of the repository linked but the interpreter and
+		// its library, so nothing ran before the goroutines start); odd rounds: the full harness
+		// binary, whose package initialisation has already used the linter's tables
+		bin := []string{"firstuse", "race"}[round%2]
+		d.SetAdd("firstuse_binaries", map[string]string{"firstuse": "lean (interpreter + library only)", "race": "full harness binary"}[bin])
+		out, err := d.RunAux(bin, []string{"GORACE=halt_on_error=0 log_path=" + logp, "GOMAXPROCS=16"}, 20*time.Minute,
 			"firstuse", file, strconv.Itoa(g), strconv.Itoa(round))
+		if err != nil && strings.Contains(err.Error(), "aux timed out") {
+			// the wall-clock watchdog is no verdict: on a loaded machine slow is not dead
+			d.Inconclusive(fmt.Sprintf("first-use sweep: the process of round %d (%d goroutines) did not finish within the watchdog", round, g))
+			continue
+		}
 		if err != nil || !strings.Contains(string(out), "firstuse-ok") {
 			msg := ""
 			if err != nil {
@@ -170,52 +178,6 @@ func c09Tail(s string, n int) string {
 }
 
 // c09FirstUseAux is the race-build process: args = forms file, goroutines, round.
-func c09FirstUseAux(args []string) int {
-	fh, err := os.Open(args[0])
-	if err != nil {
-		fmt.Fprintln(os.Stderr, err)
-		return 2
-	}
-	var forms []string
-	sc := bufio.NewScanner(fh)
-	sc.Buffer(make([]byte, 1<<20), 1<<20)
-	for sc.Scan() {
-		if t := strings.TrimSpace(sc.Text()); t != "" {
-			forms = append(forms, t)
-		}
-	}
-	fh.Close()
-	g, _ := strconv.Atoi(args[1])
-	round, _ := strconv.Atoi(args[2])
-	seed, _ := strconv.ParseInt(os.Getenv("VERIF_SEED"), 10, 64)
-	var wg sync.WaitGroup
-	start := make(chan struct{})
-	for k := 0; k < g; k++ {
-		wg.Add(1)
-		go func(k int) {
-			defer wg.Done()
-			<-start
-			// the runtime itself is built inside the goroutine: loading the library is
-			// a first use too
-			r := rt.New(rt.Opts{MaxSteps: 200_000, NoProbes: true})
-			order := make([]int, len(forms))
-			for i := range order {
-				order[i] = i
-			}
-			if k > 0 {
-				fw.Shuffle(fw.NewRNG(seed, "C09/firstuse-order", round*1000+k), order)
-			}
-			for _, i := range order {
-				func() {
-					defer func() { recover() }()
-					r.Env.LoadString("c09-firstuse", fmt.Sprintf(c09FirstUseGuard, forms[i]))
-					r.Env.LoadString("c09-firstuse", "(lisp:in-package 'user)")
-				}()
-			}
-		}(k)
-	}
-	close(start)
-	wg.Wait()
-	fmt.Println("firstuse-ok", g, len(forms))
-	return 0
-}
+// c09FirstUseAux: the aux mode lives in package firstuse so that a binary linking nothing of
+// the repository but the interpreter and its library can run it (cmd/vfirst).
+func c09FirstUseAux(args []string) int { return firstuse.Aux(args) }
